@@ -130,6 +130,8 @@ def gen_ticket(r, tid, units, profile, depth=0, u=None):
         p = gen_pause(r, profile.get("pause_density", 0.6))
         if p is not None:
             body["pause"] = p
+    if u.get("invs") and r.random() < profile.get("p_mutate", 0.0):
+        body["mutates"] = {r.choice(u["invs"]): r.random() < 0.4}
     # nested calls
     hosts = ids + [(x, "inv", {}) for x in u.get("invs", ())]
     if depth < profile.get("max_depth", 2) and r.random() < profile.get("p_nested", 0.15):
